@@ -162,6 +162,8 @@ def register(R):
             Implies(And(route.len() > 0, route[0].start != last(route).end), Or(ex_.len() > 0, rem.len() > 0)),
             t.traversal_distance_km >= 0, t.remaining_time_seconds >= 0)))
     s.ensures("junction", trav_post, ("C06",))
+    # an exhausted route is answered with an (empty) traversal, not with an error or with nothing (used by move, C19 / C03)
+    s.ensures("exhausted_route_is_an_empty_traversal", lambda a, r: Implies(a.route_estimate.len() == 0, ok(r)), ("C06", "C19", "C03"))
     s.requires("time", lambda a: a.duration_seconds >= 0)
 
     # ------------------------------------------------------------ move (C06, C17, C04 "stops when empty")
@@ -204,6 +206,22 @@ def register(R):
                                   s2.stations == a.sim.stations, s2.bases == a.sim.bases,
                                   same_except(s2, a.sim, ["vehicles", "v_locations", "v_search", "requests"])))
     s.ensures("only_this_vehicle_moves", move_neutral, ("C02", "C06", "C15"))
+    # C19 / C03: moving along an exhausted route answers with a state (the vehicle where it was) or an error, never with `no change`
+    # (None, None). The update that follows a default transition (DispatchTrip -> ServicingTrip with pickup and drop-off
+    # at the same place) runs move on an empty route; step_vehicle discards the whole update on `no change`, although the
+    # transition has already filed its pickup event and credited the fare: the event would be reported for a state change
+    # that never happened, and again in every later step.
+    def move_exhausted(a, r):
+        v1 = a.sim.vehicles.get(a.vehicle_id).val()
+        TRAVELLING = ["Repositioning", "DispatchTrip", "ServicingTrip", "DispatchStation", "DispatchBase", "DispatchPoolingTrip"]
+        has_route = Or(*[v1.vehicle_state.is_a(c) for c in TRAVELLING])
+        route_len = None
+        for c in TRAVELLING:
+            ln = v1.vehicle_state.as_a(c).route.len()
+            route_len = ln if route_len is None else Ite(v1.vehicle_state.is_a(c), ln, route_len)
+        return Implies(And(a.sim.vehicles.has(a.vehicle_id), a.env.mechatronics.has(v1.mechatronics_id), has_route, route_len == 0),
+                       And(Not(nothing(r)), Implies(ok(r), geoid(r[1].val().vehicles.get(a.vehicle_id).val()) == geoid(v1))))
+    s.ensures("exhausted_route_never_answers_no_change", move_exhausted, ("C19", "C03", "C06"))
     s.ensures("wf_kept", WF_KEPT, ("C08",))
 
     # the moved vehicle's activity takes no plug / queue slot / stall, and neither did the one it had
